@@ -33,6 +33,7 @@ fn level_of(id: &str) -> &'static str {
 fn run_check(id: &str, rep: &mut Report) -> bool {
     match id {
         "C01" => checks::c01::run(rep),
+        "C02" => checks::c02::run(rep),
         "C03" => checks::c03::run(rep),
         "C04" => checks::c04::run(rep),
         "C06" => checks::c06::run(rep),
@@ -98,6 +99,7 @@ fn main() {
             rep.outcome("replay2");
             match id.as_str() {
                 "C01" => checks::c01::replay(&v["case"], &mut rep),
+                "C02" => checks::c02::replay(&v["case"], &mut rep),
                 "C03" => checks::c03::replay(&v["case"], &mut rep),
                 "C04" => checks::c04::replay(&v["case"], &mut rep),
                 "C06" => checks::c06::replay(&v["case"], &mut rep),
